@@ -111,3 +111,21 @@ func verifH_C39_enqueue_step() {
 		verifAssert(queued == fill && a.dropped == d+1 && !stamped, "a record that does not fit is counted as dropped, not stamped and not queued")
 	}
 }
+
+// Enqueue does not block while close() is waiting for a stalled writer.
+//
+//verif:bound an emitter with 0..1 queued records whose writer goroutine never finishes draining (the done channel stays open): close() runs as its own goroutine until it parks on the writer, then another goroutine enqueues. A lock acquisition that can never succeed is reported by the engine as a deadlock.
+func verifH_C39_enqueue_during_close() {
+	a := &asyncEmitter{ch: make(chan map[string]any, 2), done: make(chan struct{})}
+	if verifNondetBool("one_queued") {
+		a.ch <- map[string]any{"n": 0}
+	}
+	parked := verifRunUntilBlocked(func() { a.close() })
+	verifReach("close-started")
+	verifAssert(parked, "close waits for the writer")
+	rec := map[string]any{"status": "ok"}
+	a.enqueue(rec) // must return: enqueueing never blocks
+	verifReach("enqueue-returned")
+	_, stamped := rec["dropped_records"]
+	verifAssert(!stamped, "a record enqueued after close is ignored")
+}
